@@ -9,8 +9,9 @@
                           shutdownServers() (stop accepting + drain) and WaitConnectionsDone; nil -> wg.Done; error -> resume()
      main goroutine       WaitFinish(); Stop(): if the stop action is GracefulStop or Upgrade: runGracefulStopStage =
                           Application.Shutdown() (the drain); then Application.Close().
-   `always` (Gen/StageTokens.v stop_always_drains) = runGracefulStopStage calls Application.Shutdown unconditionally; with
-   always = false the model skips it when the state at Stop() was Upgrading. *)
+   Switches read from the source (Gen/StageTokens.v stage_flags): `always` = runGracefulStopStage calls Application.Shutdown
+   unconditionally (otherwise the model skips it when the state at Stop() was Upgrading); `hupsafe` = NoticeStop ignores a
+   reload once a stop has been noticed (otherwise the reload overwrites the stop action even when it cannot take place). *)
 From Coq Require Import List Bool Arith.
 Import ListNotations.
 
@@ -20,8 +21,12 @@ Inductive scall := CDrainByStop | CDrainByHandler | CClose.
 
 (* g_hpc: 0 no upgrade handler running; 1 started (sending fds); 2 fds sent, waiting for the ack; 3 ack received, sleeping;
           4 servers shut down and drained, waiting for the connections; 5 returned *)
-Record stg := mkG { g_state : sstate; g_action : saction; g_released : bool; g_hpc : nat; g_stopped : bool; g_trace : list scall }.
-Definition g_init : stg := mkG StRunning ActNone false 0 false [].
+Record stg := mkG { g_state : sstate; g_action : saction; g_released : bool; g_hpc : nat; g_stopped : bool; g_trace : list scall;
+                    g_noticed : bool (* a stop (SIGTERM / SIGINT) has been noticed *) }.
+Definition g_init : stg := mkG StRunning ActNone false 0 false [] false.
+(* the two switches read from the source *)
+Record sflags := mkSF { always : bool    (* runGracefulStopStage calls Application.Shutdown unconditionally *);
+                        hupsafe : bool   (* NoticeStop ignores a reload once a stop has been noticed *) }.
 
 Inductive sevent :=
   | EvTerm          (* SIGTERM: NoticeStop(GracefulStop) *)
@@ -35,34 +40,35 @@ Inductive sevent :=
 Definition graceful (a : saction) : bool := match a with ActGraceful | ActUpgrade => true | _ => false end.
 Definition is_upgrading (s : sstate) : bool := match s with StUpgrading => true | _ => false end.
 
-Definition g_step (always : bool) (g : stg) (e : sevent) : stg :=
+Definition g_step (f : sflags) (g : stg) (e : sevent) : stg :=
   if g_stopped g then g else
   match e with
-  | EvTerm => mkG (g_state g) ActGraceful true (g_hpc g) false (g_trace g)
-  | EvInt => mkG (g_state g) ActImmediate true (g_hpc g) false (g_trace g)
+  | EvTerm => mkG (g_state g) ActGraceful true (g_hpc g) false (g_trace g) true
+  | EvInt => mkG (g_state g) ActImmediate true (g_hpc g) false (g_trace g) true
   | EvHup => (* NoticeStop overwrites the stop action FIRST; runReload then acts only from Running *)
-             mkG (match g_state g with StRunning => StStartingNew | s => s end) ActNone (g_released g) (g_hpc g) false (g_trace g)
-  | EvNewDial => if Nat.eqb (g_hpc g) 0 then mkG StUpgrading ActUpgrade (g_released g) 1 false (g_trace g) else g
+             if andb (hupsafe f) (g_noticed g) then g else
+             mkG (match g_state g with StRunning => StStartingNew | s => s end) ActNone (g_released g) (g_hpc g) false (g_trace g) (g_noticed g)
+  | EvNewDial => if Nat.eqb (g_hpc g) 0 then mkG StUpgrading ActUpgrade (g_released g) 1 false (g_trace g) (g_noticed g) else g
   | EvHandlerStep =>
       match g_hpc g with
-      | 1 => mkG (g_state g) (g_action g) (g_released g) 2 false (g_trace g)
-      | 2 => mkG (g_state g) (g_action g) (g_released g) 3 false (g_trace g)
-      | 3 => mkG (g_state g) (g_action g) (g_released g) 4 false (g_trace g ++ [CDrainByHandler])
-      | 4 => mkG (g_state g) (g_action g) true 5 false (g_trace g)
+      | 1 => mkG (g_state g) (g_action g) (g_released g) 2 false (g_trace g) (g_noticed g)
+      | 2 => mkG (g_state g) (g_action g) (g_released g) 3 false (g_trace g) (g_noticed g)
+      | 3 => mkG (g_state g) (g_action g) (g_released g) 4 false (g_trace g ++ [CDrainByHandler]) (g_noticed g)
+      | 4 => mkG (g_state g) (g_action g) true 5 false (g_trace g) (g_noticed g)
       | _ => g
       end
   | EvHandlerFail =>
       match g_hpc g with
-      | 1 | 2 | 3 => mkG StRunning (g_action g) (g_released g) 0 false (g_trace g)
+      | 1 | 2 | 3 => mkG StRunning (g_action g) (g_released g) 0 false (g_trace g) (g_noticed g)
       | _ => g
       end
   | EvMainStop =>
       if g_released g then
-        let drain := if andb (graceful (g_action g)) (orb always (negb (is_upgrading (g_state g)))) then [CDrainByStop] else [] in
-        mkG StStopped (g_action g) true (g_hpc g) true (g_trace g ++ drain ++ [CClose])
+        let drain := if andb (graceful (g_action g)) (orb (always f) (negb (is_upgrading (g_state g)))) then [CDrainByStop] else [] in
+        mkG StStopped (g_action g) true (g_hpc g) true (g_trace g ++ drain ++ [CClose]) (g_noticed g)
       else g
   end.
-Definition g_run (always : bool) (evs : list sevent) : stg := fold_left (g_step always) evs g_init.
+Definition g_run (f : sflags) (evs : list sevent) : stg := fold_left (g_step f) evs g_init.
 
 (* the trace property: no Close before a drain has been performed by someone *)
 Fixpoint drained_before_close_from (seen : bool) (tr : list scall) : bool :=
@@ -72,21 +78,8 @@ Fixpoint drained_before_close_from (seen : bool) (tr : list scall) : bool :=
   | _ :: tr' => drained_before_close_from true tr'
   end.
 Definition drained_before_close (tr : list scall) : bool := drained_before_close_from false tr.
-(* side conditions of the theorem: no immediate stop (SIGINT/SIGQUIT ask for a stop WITHOUT drain), and no SIGHUP in the
-   window between the release of the main goroutine and its Stop() (NoticeStop overwrites the one stop-action field first
-   and only then finds that a reload is not possible: Stop() would read "Reload" and skip the graceful stage) *)
-Fixpoint admissible_from (always : bool) (g : stg) (evs : list sevent) : bool :=
-  match evs with
-  | [] => true
-  | e :: evs' =>
-      andb (match e with
-            | EvInt => false
-            | EvHup => negb (andb (g_released g) (negb (g_stopped g)))
-            | _ => true
-            end)
-           (admissible_from always (g_step always g e) evs')
-  end.
-Definition admissible (always : bool) (evs : list sevent) : bool := admissible_from always g_init evs.
+(* the side condition of the theorem: no immediate stop (SIGINT / SIGQUIT ask for a stop WITHOUT drain, by design) *)
+Definition admissible (evs : list sevent) : bool := forallb (fun e => match e with EvInt => false | _ => true end) evs.
 
 (* ---- correspondence: an interleaving and the calls the real stage manager made on the recording Application ---- *)
 Definition scall_eqb (a b : scall) : bool :=
@@ -103,6 +96,6 @@ Fixpoint mismatches_from {A} (ok : A -> bool) (i : nat) (l : list A) : list nat 
   | x :: l' => if ok x then mismatches_from ok (S i) l' else i :: mismatches_from ok (S i) l'
   end.
 Definition stage_case := (list sevent * list scall)%type.
-Definition stage_case_ok (always : bool) (k : stage_case) : bool :=
-  match k with (evs, got) => trace_eqb (g_trace (g_run always evs)) got end.
-Definition stage_mismatches (always : bool) (l : list stage_case) : list nat := mismatches_from (stage_case_ok always) 0 l.
+Definition stage_case_ok (f : sflags) (k : stage_case) : bool :=
+  match k with (evs, got) => trace_eqb (g_trace (g_run f evs)) got end.
+Definition stage_mismatches (f : sflags) (l : list stage_case) : list nat := mismatches_from (stage_case_ok f) 0 l.
